@@ -15,6 +15,7 @@
 //	                      extensions, ciphertexts under other keys, garbage; next to an authentic
 //	                      and an excepted neighbour cookie.
 //	multi   (direct)      several cookies per request including duplicates of one name.
+//	long    (direct+wire) plaintexts up to 16 KiB (cookies beyond 4096 / 8192 bytes) issued and replayed.
 //	rawline (wire)        the handler writes a raw Set-Cookie line, also with attributes the cookie
 //	                      parser rejects: ciphertext only all the same.
 //
@@ -136,7 +137,11 @@ func (w *world) reset() {
 }
 
 func newApp(key string, except []string, withMW bool, w *world) *fiber.App {
-	app := fiber.New()
+	return newAppCfg(fiber.Config{}, key, except, withMW, w)
+}
+
+func newAppCfg(fc fiber.Config, key string, except []string, withMW bool, w *world) *fiber.App {
+	app := fiber.New(fc)
 	if withMW {
 		app.Use(mw.New(mw.Config{Key: key, Except: except}))
 	}
@@ -223,8 +228,29 @@ func lossClass(v string) string {
 
 func uid(r *gen.Rand, n int) string { return "v" + hex.EncodeToString(r.Bytes(n)) }
 
-func genValue(r *gen.Rand, allowLong bool) pval {
-	switch r.PickW(6, 2, 2, 4, 3, 2, 2, 2) {
+func genValue(r *gen.Rand, allowLong bool, key string) pval {
+	switch r.PickW(6, 2, 2, 4, 3, 2, 2, 2, 3) {
+	case 8:
+		// a value that is itself a well-formed encrypted cookie value: a token the application
+		// sealed with the package's exported EncryptCookie under the middleware key or another key,
+		// or one sealed by the harness. It is a value like any other: the client must see a
+		// ciphertext OF it, and the next handler must get exactly this string back.
+		inner := uid(r, r.Range(4, 12))
+		nonce, other := r.Bytes(12), r.Bytes(32)
+		var v string
+		var err error
+		switch r.Intn(3) {
+		case 0:
+			v, err = mw.EncryptCookie(inner, key)
+		case 1:
+			v, err = mw.EncryptCookie(inner, base64.StdEncoding.EncodeToString(other))
+		default:
+			v = seal(other, nonce, []byte(inner))
+		}
+		if err != nil || v == "" {
+			v = seal(other, nonce, []byte(inner))
+		}
+		return pval{v, v, "nested-ciphertext"}
 	case 0:
 		v := uid(r, r.Range(5, 10))
 		return pval{v, v, "id"}
@@ -549,6 +575,9 @@ func script(e *ev.Env, c *ev.Case, keyRaw []byte, key string, except []string, c
 				continue
 			}
 			stat(e, "roundtrip_ok_"+lc, 1)
+			if ck.p.class == "nested-ciphertext" {
+				stat(e, "roundtrip_ok_nested_ciphertext", 1)
+			}
 		}
 	}
 }
@@ -724,6 +753,148 @@ func rawline(e *ev.Env, c *ev.Case, fixed int) {
 			stat(e, "rawline_roundtrip_ok", 1)
 		}
 	}
+}
+
+// ---------------------------------------------------------------------------------------------
+// long family: the property quantifies over long values. Plaintexts up to 16 KiB, dense around the
+// sizes where a cookie (name + encrypted value) crosses 4096 and 8192 bytes, issued and replayed
+// through the direct path (no read-buffer limit) and over the wire with a raised ReadBufferSize.
+
+func longLen(r *gen.Rand) int {
+	switch r.PickW(3, 6, 4, 3, 3, 2) {
+	case 0:
+		return r.Range(1500, 2900)
+	case 1:
+		return r.Range(2950, 3150) // name + base64(nonce|value|tag) crosses 4096 here
+	case 2:
+		return r.Range(3150, 4200)
+	case 3:
+		return r.Range(6000, 6300) // ... and 8192 here
+	case 4:
+		return r.Range(4200, 9000)
+	default:
+		return r.Range(9000, 16384)
+	}
+}
+
+func longValue(e *ev.Env, c *ev.Case, fixedLen int) {
+	r := c.R
+	names := pickNames(r, 3)
+	target, nb, nx := names[0], names[1], names[2]
+	except := []string{nx}
+	n := longLen(r)
+	if fixedLen > 0 {
+		n = fixedLen
+	}
+	core := uid(r, 8)
+	var p string
+	pclass := "long-text"
+	if r.Chance(1, 3) {
+		pclass = "long-binary"
+		for {
+			p = core + string(r.Bytes(n-len(core)))
+			if lossClass(p) == "clean" {
+				break
+			}
+			p = strings.NewReplacer(";", ":", "\r", "r", "\n", "n").Replace(p)
+			if lossClass(p) == "clean" {
+				break
+			}
+		}
+	} else {
+		p = core + r.StringFrom(cookieSafe, n-len(core))
+	}
+	pb, xraw := uid(r, 6), genExceptValue(r)
+	viaWire := r.Chance(1, 3)
+	keyRaw, key := genKey(r)
+	w := &world{}
+	app := newAppCfg(fiber.Config{ReadBufferSize: 128 * 1024}, key, except, true, w)
+	cfg := map[string]any{"key_len": len(keyRaw), "except": except, "target": target, "plaintext_len": len(p), "plaintext_class": pclass,
+		"plaintext_head": printable(p[:24]), "via_wire": viaWire}
+	w.toSet = []setInstr{{Name: target, Value: p, Path: "/"}, {Name: nb, Value: pb, Path: "/"}, {Name: nx, Value: xraw, Path: "/"}}
+	ask := []string{target, nb, nx}
+	iss := map[string]string{}
+	g := &rig{except: except, w: w, keyRaw: keyRaw, key: key}
+	if viaWire {
+		var m map[string]wireCookie
+		var out []byte
+		var bad string
+		if e.Guard(c, "issue-long", cfg, func() { m, out, bad = wireSet(app, "/") }) {
+			return
+		}
+		if bad != "" {
+			e.Violation(c, "wire|response-unparseable:"+bad, "issue response rejected by the strict parser", cfg)
+			return
+		}
+		if bytes.Contains(out, []byte(core)) {
+			e.Violation(c, "confidentiality|wire-set-cookie|plaintext-in-response-bytes", "plaintext of an encrypted cookie is visible on the wire", cfg)
+			return
+		}
+		for k, wc := range m {
+			if wc.sc != nil {
+				iss[k] = wc.sc.Value
+			}
+		}
+	} else {
+		g.d = drive.NewDirect(app)
+		if e.Guard(c, "issue-long", cfg, func() { iss = g.issue(w.toSet) }) {
+			return
+		}
+	}
+	e.Eval(1)
+	ct, okT := iss[target]
+	cb, okB := iss[nb]
+	if !okT || !okB {
+		e.Violation(c, "wire|set-cookie-missing", "cookie set by the handler is not in the response as a well-formed cookie line", cfg)
+		return
+	}
+	if strings.Contains(ct, core) || decodedContains(ct, core) {
+		e.Violation(c, "confidentiality|wire-set-cookie|value-not-encrypted", "plaintext of an encrypted cookie is visible in its Set-Cookie value", cfg)
+		return
+	}
+	cfg["cookie_len"] = len(target) + len(ct)
+	hdr := nb + "=" + cb + "; " + target + "=" + ct + "; " + nx + "=" + xraw
+	if r.Bool() {
+		hdr = target + "=" + ct + "; " + nx + "=" + xraw + "; " + nb + "=" + cb
+	}
+	w.reset()
+	w.ask = ask
+	if viaWire {
+		okr := false
+		if e.Guard(c, "replay-long", cfg, func() { okr = wireRead(app, "/read", hdr) }) {
+			return
+		}
+		if !okr {
+			e.Violation(c, "replay|request-failed", "replay request did not reach the handler with 200", cfg)
+			return
+		}
+	} else if e.Guard(c, "replay-long", cfg, func() { g.read(hdr, ask) }) {
+		return
+	}
+	e.Eval(1)
+	stat(e, "long_cases", 1)
+	if len(target)+len(ct) > 4096 {
+		stat(e, "long_cookie_over_4096", 1)
+	}
+	if len(target)+len(ct) > 8192 {
+		stat(e, "long_cookie_over_8192", 1)
+	}
+	e.Nontrivial("long", c.ID)
+	if w.entered != 1 {
+		e.Violation(c, "replay|request-failed", "replay request did not reach the handler", cfg)
+		return
+	}
+	vs := visitOf(w.visited, target)
+	if got := w.got[target]; got != p || len(vs) != 1 || vs[0] != p {
+		cfg["cookies_view_len"] = len(got)
+		e.Violation(c, "roundtrip|handler-view|value-clean-long", "replayed long cookie value does not reach the handler with its original value", cfg)
+		return
+	}
+	if w.got[nb] != pb || w.got[nx] != xraw {
+		e.Violation(c, "neighbour|cookie-lost-next-to-long-value", "a neighbouring cookie did not reach the handler next to a long one", cfg)
+		return
+	}
+	stat(e, "long_roundtrip_ok", 1)
 }
 
 // ---------------------------------------------------------------------------------------------
@@ -1376,6 +1547,22 @@ func run(e *ev.Env) {
 		script(e, c, k, ks, nil, []issued{mk("t", "vsemi00001;vsemi00002", "vsemi00001", "semicolon")}, false)
 	})
 
+	e.Corpus("nested-ciphertext", func(c *ev.Case) {
+		k, ks := genKey(c.R)
+		inner, err := mw.EncryptCookie("inner-token-0001", ks)
+		if err != nil {
+			inner = seal(k, c.R.Bytes(12), []byte("inner-token-0001"))
+		}
+		foreign := seal(c.R.Bytes(32), c.R.Bytes(12), []byte("inner-token-0002"))
+		script(e, c, k, ks, nil, []issued{
+			{name: "token", p: pval{inner, inner, "nested-ciphertext"}, path: "/"},
+			{name: "sid", p: pval{foreign, foreign, "nested-ciphertext"}, path: "/"},
+		}, false)
+	})
+	for _, n := range []int{3000, 3041, 3100, 4096, 6200, 8192, 16384} {
+		n := n
+		e.Corpus(fmt.Sprintf("long-%d", n), func(c *ev.Case) { longValue(e, c, n) })
+	}
 	for i, ra := range rawAttrs {
 		i := i
 		if ra.odd {
@@ -1410,7 +1597,7 @@ func run(e *ev.Env) {
 				ck.p = pval{v, v, "id"}
 				except = append(except, names[i])
 			} else {
-				ck.p = genValue(r, long)
+				ck.p = genValue(r, long, key)
 				if ck.p.class == "long" {
 					long = false
 				}
@@ -1438,9 +1625,11 @@ func run(e *ev.Env) {
 
 	e.Cases("rawline", e.N(400, 20000), func(c *ev.Case) { rawline(e, c, -1) })
 
+	e.Cases("long", e.N(320, 12000), func(c *ev.Case) { longValue(e, c, 0) })
+
 	if e.Only == "" {
 		for _, name := range []string{"wire_ciphertext_only", "nonce_fresh", "roundtrip_ok_clean", "except_wire_identical", "except_request_identical",
-			"tamper_rejected", "tamper_substitution", "tamper_truncation", "tamper_extension", "tamper_other-key", "multi_duplicate_names", "multi_single_ok", "rawline_odd_attribute_ciphertext_only"} {
+			"tamper_rejected", "tamper_substitution", "tamper_truncation", "tamper_extension", "tamper_other-key", "multi_duplicate_names", "multi_single_ok", "rawline_odd_attribute_ciphertext_only", "long_cookie_over_4096"} {
 			if seen[name] == 0 {
 				e.Inconclusive("never observed: " + name)
 			}
